@@ -1356,13 +1356,76 @@ func preflight(ms []driver.Matcher, sc *scanScenario) string {
 	return ""
 }
 
+// matcherSets builds the two matcher sets once per run, the default
+// configuration FIRST: the factories live in a process-wide registry and
+// rhel's keeps what Configure wrote (finding rhel-config-sticky), so a set
+// built without configuration after one built with ignore_unpatched is not
+// the default configuration any more.
+func (e *env) matcherSets() (d0, d1 []driver.Matcher, ok bool) {
+	if e.d0 == nil {
+		var err0, err1 error
+		e.d0, err0 = defaultSet(false)
+		e.d1, err1 = defaultSet(true)
+		if err0 != nil || err1 != nil {
+			e.r.Fail("", fmt.Sprintf("scan: matchers.NewMatchers failed: %v %v", err0, err1))
+			e.d0, e.d1 = nil, nil
+			return nil, nil, false
+		}
+	}
+	return e.d0, e.d1, true
+}
+
+const findingRhelSticky = "rhel-config-sticky"
+
+// rhelStickyWitness replays the finding rhel-config-sticky: after a
+// NewMatchers call that configured rhel with ignore_unpatched, a later call
+// WITHOUT any configuration still yields an rhel matcher that drops advisories
+// without a fix (the shared *rhel.MatcherFactory in matchers/registry keeps the flag).
+func (e *env) rhelStickyWitness() {
+	if _, _, ok := e.matcherSets(); !ok { // (this has configured rhel with ignore_unpatched once)
+		return
+	}
+	later, err := defaultSet(false)
+	if err != nil {
+		e.r.Fail("", fmt.Sprintf("scan: matchers.NewMatchers failed: %v", err))
+		return
+	}
+	w, _ := cpe.Unbind("cpe:/o:redhat:enterprise_linux:8::baseos")
+	p := &claircore.Package{ID: "1", Name: "openssl", Kind: claircore.BINARY, Version: "1.0-1", Arch: "x86_64"}
+	ir := &claircore.IndexReport{Packages: map[string]*claircore.Package{"1": p},
+		Distributions: map[string]*claircore.Distribution{}, Repositories: map[string]*claircore.Repository{
+			"r1": {Name: "cpe:/o:redhat:enterprise_linux:8::baseos", Key: rhelRepositoryKey, CPE: w}},
+		Environments: map[string][]*claircore.Environment{"1": {{RepositoryIDs: []string{"r1"}}}}}
+	v := &claircore.Vulnerability{Name: "CVE-unfixed", Package: &claircore.Package{Name: "openssl", Kind: claircore.BINARY},
+		Dist: &claircore.Distribution{}, Repo: &claircore.Repository{Name: "cpe:/o:redhat:enterprise_linux:8::baseos", Key: rhelRepositoryKey}}
+	run := func(ms []driver.Matcher) string {
+		st := &sqlStore{}
+		st.addRow("7", v)
+		return timed(20*time.Second, func() string {
+			vr, err := ctlpkg.Match(context.Background(), ir, ms, st)
+			if err != nil || vr == nil {
+				return "err"
+			}
+			return fmt.Sprint(len(vr.PackageVulnerabilities["1"]))
+		})
+	}
+	first, after := run(e.d0), run(later)
+	e.r.Case("rhel default configuration, built before / after a configured set: "+first+" / "+after, true)
+	if first != "1" {
+		e.r.Fail("", "rhel (default configuration): package openssl 1.0-1 of cpe:/o:redhat:enterprise_linux:8::baseos, advisory without fix for that CPE: listed "+first+" times, expected 1")
+	}
+	if after == "0" {
+		e.r.KnownSeen(findingRhelSticky, "matchers.NewMatchers without configuration, called after a call that configured rhel with ignore_unpatched, drops the unfixed advisory (listed 0 times; the set built first lists it once)")
+	} else if after != "1" {
+		e.r.Fail("", "rhel (default configuration, second NewMatchers call): unfixed advisory listed "+after+" times, expected 1")
+	}
+}
+
 // scanOps: scenarios for every ecosystem through the default matcher set.
 func (e *env) scanOps(rounds int) {
 	r, rnd := e.r, e.rnd
-	d0, err0 := defaultSet(false)
-	d1, err1 := defaultSet(true)
-	if err0 != nil || err1 != nil {
-		r.Fail("", fmt.Sprintf("scan: matchers.NewMatchers failed: %v %v", err0, err1))
+	d0, d1, ok := e.matcherSets()
+	if !ok {
 		return
 	}
 	// the registered set itself (matchers/defaults): one protocol line
